@@ -538,7 +538,10 @@ def prov1(ctx, pid):
             rets.add(st.ret)
     want = {("cmp", "==", ("len", unexpl), C(0))}
     alt = {("un", "not", unexpl)}
-    if rets == want or rets == alt:
+    tab = pq.bool_table(ctx, f)
+    if rets == want or rets == alt or tab in (
+            {(frozenset({("==", ("len", unexpl), C(0))}), True), (frozenset({("!=", ("len", unexpl), C(0))}), False)},
+            {(frozenset({(unexpl, False)}), True), (frozenset({(unexpl, True)}), False)}):
         ctx.ok("complete-iff-empty:HexaryTrieFog.is_complete", f.loc(), "is_complete is len(unexplored) == 0")
     else:
         ctx.bad("complete-iff-empty:HexaryTrieFog.is_complete", f.loc(), "is_complete returns `%s`" % "; ".join(tstr(r) for r in rets))
@@ -1143,20 +1146,25 @@ def fogpol(ctx, pid):
     o = ("p", e.params[1])
     inst = ("call", "ext:isinstance", (o, ("cls", FOG)), ())
     rows = set()
-    for p, st in pq.states(ctx, e):
+    unexp = ("attr", ("self",), "_unexplored_prefixes")
+    ounexp = ("attr", o, "_unexplored_prefixes")
+    for p, st in pq.states(ctx, e, fork_returns=True):
         if p.exit[0] != "return":
             continue
         v = None
+        same = None
         for t, pol, _ in st.log:
+            r = rel_norm(t, pol)
+            if r is not None and {r[1], r[2]} == {unexp, ounexp} and r[0] in ("==", "!="):
+                same = r[0] == "=="
+                continue
             tt, pp = truth_norm(t, pol)
             if tt == inst:
                 v = pp
-        rows.add((v, st.ret))
-    unexp = ("attr", ("self",), "_unexplored_prefixes")
-    want = {(False, C(False)), (True, ("cmp", "==", unexp, ("attr", o, "_unexplored_prefixes")))}
-    want2 = {(False, C(False)), (True, ("cmp", "==", ("attr", o, "_unexplored_prefixes"), unexp))}
+        rows.add((v, same, st.ret))
+    want = {(False, None, C(False)), (True, True, C(True)), (True, False, C(False))}
     c = "eq-table:HexaryTrieFog.__eq__"
-    if rows in (want, want2):
+    if rows == want:
         ctx.ok(c, e.loc(), "False for other types, equality of the unexplored sets otherwise")
     else:
-        ctx.bad(c, e.loc(), "__eq__ behaves as %s; expected {not a fog: False, a fog: equality of the unexplored sets}" % sorted((k, tstr(v)[:50]) for k, v in rows))
+        ctx.bad(c, e.loc(), "__eq__ behaves as %s; expected {not a fog: False, a fog: equality of the unexplored sets}" % sorted((str(k), str(sm), tstr(v)[:50]) for k, sm, v in rows))
